@@ -138,6 +138,7 @@ class Puppet:
     # ------------------------------------------------------------------ requests to A
     def request_to_a(self, a_sa, b_sa):
         r = self.rng
+        self.last_rekey = None
         kind = r.choice(['create-child', 'create-child', 'rekey-child', 'rekey-child', 'rekey-ike', 'delete', 'delete', 'dpd', 'garbage-exchange'])
         payloads = []
         exch = EX.CREATE_CHILD_SA
@@ -153,6 +154,8 @@ class Puppet:
                 payloads.append(M.PayloadNOTIFY(proto, N.REKEY_SA, spi, b''))
             props, pv = self.child_proposal()
             tsi, tsr, tv = self.ts_pair(a_sa, kid if (kid is not None and r.random() < 0.8) else None)
+            # what a rekey must reproduce: the selectors of the CHILD_SA it names
+            self.last_rekey = None if kid is None else {'old': (ts_key(kid.tsi), ts_key(kid.tsr)), 'before': [id(x) for x in a_sa.child_sas]}
             payloads += [M.PayloadTSi(tsi), M.PayloadTSr(tsr), M.PayloadSA(props)]
             dh = next((t.id for t in props[-1].transforms if t.type == M.Transform.Type.DH), None)
             kv = r.choice(['match', 'match', 'match', 'none', 'other-group', 'bad-data'])
@@ -289,13 +292,20 @@ class Puppet:
                     if v == 'widen-ts':
                         T = M.TrafficSelector
                         wide = lambda t: T(t.ts_type, T.IpProtocol.ANY, 0, 65535, ip_address(int(t.start_addr) & ~0xffff), ip_address(int(t.start_addr) | 0xffff))
-                        which = r.choice(['i', 'r', 'r', 'both'])
+                        which = r.choice(['i', 'r', 'r', 'both', 'first-of-two-i', 'first-of-two-r'])
+                        li, lr = [ci], [cr]
                         if which in ('i', 'both'):
-                            ci = wide(ci)
+                            li = [wide(ci)]
                         if which in ('r', 'both'):
-                            cr = wide(cr)
+                            lr = [wide(cr)]
+                        if which == 'first-of-two-i':          # a wide selector first, an acceptable one after it
+                            li = [wide(ci), ci]
+                        if which == 'first-of-two-r':
+                            lr = [wide(cr), cr]
                         v = 'widen-ts-' + which
-                    payloads += [M.PayloadTSi([ci]), M.PayloadTSr([cr])]
+                        payloads += [M.PayloadTSi(li), M.PayloadTSr(lr)]
+                    else:
+                        payloads += [M.PayloadTSi([ci]), M.PayloadTSr([cr])]
                     creating = a_sa.creating_child_sa
                     transport = creating is not None and int(creating.mode) == int(X.Mode.TRANSPORT)
                     if (transport and v != 'flip-mode') or (not transport and v == 'flip-mode'):
@@ -368,6 +378,26 @@ def o_installed_within_policy(h):
     return out
 
 
+def ts_key(t):
+    return (int(t.ts_type), int(t.ip_proto), t.start_port, t.end_port, int(t.start_addr), int(t.end_addr))
+
+
+def o_rekey_keeps_selectors(h):
+    """C12 on A as responder: a CHILD_SA created by a CREATE_CHILD_SA request that rekeys an existing CHILD_SA has exactly the
+    selectors of the CHILD_SA it replaces (a request that asks for other selectors is refused with TS_UNACCEPTABLE)"""
+    rk = getattr(h, '_rogue_rekey', None)
+    h._rogue_rekey = None
+    if rk is None or h.ops[-1][0] != 'inject':
+        return []
+    out = []
+    for s in h.w.A.sas():
+        for c in s.child_sas:
+            if id(c) not in rk['before'] and (ts_key(c.tsi), ts_key(c.tsr)) != rk['old']:
+                out.append(('rekey-selectors-changed', 'A answered a rekey of a CHILD_SA with selectors %s by installing one with %s'
+                            % (rk['old'], (ts_key(c.tsi), ts_key(c.tsr)))))
+    return out
+
+
 def o_ike_suite_complete(h):
     """C11 for IKE_SAs: whoever holds an established IKE_SA chose exactly one transform of each type its own IKE policy requires,
     each of them from that policy"""
@@ -387,7 +417,7 @@ def o_ike_suite_complete(h):
     return out
 
 
-ORACLES = [CP.o_no_escape, CP.o_sad_equals_tracked, o_installed_within_policy, o_ike_suite_complete]
+ORACLES = [CP.o_no_escape, CP.o_sad_equals_tracked, o_installed_within_policy, o_rekey_keeps_selectors, o_ike_suite_complete]
 
 VARIANTS = [
     {},
@@ -453,6 +483,7 @@ def campaign(ctx, res, n_hist, n_msgs, oracles=None, deep=True):
                     continue
                 else:
                     data = pup.request_to_a(a_sa, b_sa)
+                    h._rogue_rekey = pup.last_rekey if data is not None else None
                 if data is None:
                     continue
                 h.op('inject', 'A', bytes(data), w.ip_b)
